@@ -396,14 +396,22 @@ typename small_vector<T,S>::iterator small_vector<T, S>::insert(
 
   auto overwritten(old_end - i);
 
-  vita::uninitialized_move(i, old_end, end() - overwritten);
+  // Objects in the local storage are always alive: they must be assigned, not
+  // constructed again.
+  if (local_storage_used())
+    std::move(i, old_end, end() - overwritten);
+  else
+    vita::uninitialized_move(i, old_end, end() - overwritten);
 
   // Replace the overwritten part.
   for (auto j(i); overwritten; --overwritten, ++j, ++b)
     *j = *b;
 
   // Insert the non-overwritten middle part.
-  vita::uninitialized_copy(b, e, old_end);
+  if (local_storage_used())
+    std::copy(b, e, old_end);
+  else
+    vita::uninitialized_copy(b, e, old_end);
 
   return i;
 }
